@@ -217,6 +217,80 @@ def interrupt_runs(res, base, case, run0, r, max_points):
         shutil.rmtree(wd, ignore_errors=True)
 
 
+def anywhere_runs(res, base, case, r, npoints):
+    """(7) an interrupt at *any* statement the main thread starts inside
+    ddSMT's own code while a strategy is reducing (not only inside a
+    rewrite): ddSMT stops, reports it, leaves exactly the last written input,
+    the input file untouched and no temporary directory."""
+    text, rules, opts, desc = case
+    wd = os.path.join(base, 'any0')
+    run0 = realrun.run_ddsmt(
+        wd, text, rules, opts=opts,
+        launcher={'monitors': ['write'],
+                  'failpoint': {'count_anywhere': True}})
+    shutil.rmtree(wd, ignore_errors=True)
+    res.count('evaluations')
+    tot = [e['points'] for e in run0.events if e['ev'] == 'anywhere_total']
+    if run0.timed_out or run0.rc != 0 or not tot or not tot[0]:
+        res.count('anywhere_calibrations_failed')
+        return
+    total = tot[0]
+    res.count('anywhere_points_available', total)
+    for n in sorted(r.sample(range(1, total + 1), min(npoints, total))):
+        wd = os.path.join(base, f'any{n}')
+        cfg = {'monitors': ['write'],
+               'failpoint': {'anywhere': n, 'action': 'interrupt'}}
+        run = realrun.run_ddsmt(wd, text, rules, opts=opts, launcher=cfg,
+                                timeout=45)
+        shutil.rmtree(wd, ignore_errors=True)
+        res.count('evaluations')
+        fired = [e for e in run.events if e['ev'] == 'failpoint']
+        if not fired:
+            res.count('failpoints_not_reached')
+            continue
+        res.count('injected_interrupts_anywhere')
+        where = fired[0]['where']
+        res.add_set('anywhere_functions', where.rsplit(':', 1)[0])
+        what = f'interrupt at statement {n} of the reduction ({where})'
+        if run.timed_out:
+            judge_hang(res, run, desc, opts, what)
+            continue
+        witness = dict(desc)
+        witness.update({'opts': opts, 'failpoint': cfg['failpoint'],
+                        'where': where, 'stdout_tail': run.stdout[-200:],
+                        'stderr_tail': run.stderr[-600:]})
+        if '[ddsmt] interrupted' not in run.stdout or run.rc != 1:
+            res.violation(
+                'interrupt-lost',
+                f'{what}: ddSMT went on (exit status {run.rc}, '
+                f'{"no " if "[ddsmt] interrupted" not in run.stdout else ""}'
+                f'"interrupted" message)', witness)
+            continue
+        done = sorted((e for e in run.events if e['ev'] == 'write'),
+                      key=lambda e: e['seq'])
+        k = fired[0].get('writes_done', 0)
+        last = [e for e in done if e['seq'] == k]
+        if k == 0:
+            if run.out_bytes is not None:
+                res.violation('output-before-first-accepted-step',
+                              f'{what}: an output file exists although '
+                              f'nothing had been accepted', witness)
+        elif last:
+            judge_file_state(res, run.out_bytes, {last[0]['td']},
+                             'output-not-last-accepted-input', what, witness)
+        if not run.infile_unchanged:
+            res.violation('input-file-modified',
+                          'the input file was modified', witness)
+        left = [x for x in run.tmp_listing if x.startswith('ddsmt-')]
+        if left:
+            res.violation('tmpdir-left-behind',
+                          f'{what}: temporary directory {left} still exists',
+                          witness)
+        if run.uncaught_traceback:
+            res.violation('interrupt-traceback',
+                          f'{what}: uncaught traceback', witness)
+
+
 def judge_hang(res, run, desc, opts, what):
     """ddSMT did not exit after an interrupt; the launcher dumped the stacks
     of all threads on the harness's request (SIGUSR1)."""
@@ -455,6 +529,8 @@ def shard(args):
                 wd = os.path.join(base, f'st{i}')
                 strace_run(res, wd, case)
                 shutil.rmtree(wd, ignore_errors=True)
+            if i == 1 and case[3]['jobs'] == 1 and not case[3]['big']:
+                anywhere_runs(res, base, case, r, args.get('anywhere', 6))
             if i == 0 and args['shard'] % 2 == 0:
                 wd = os.path.join(base, f'par{i}')
                 prompt_write_run(res, wd, make_par_case(r))
